@@ -1007,6 +1007,13 @@ func runOpens(work string, r *rand.Rand, env *c05Env, m *c05Markers, in C05Input
 	tampers := genTampers(r, env, s.keys, m, work, thorough)
 	// foreign keys first (so that they are also the first to be reported), then the alterations
 	sort.SliceStable(tampers, func(i, j int) bool { return tampers[i].class == "foreign-kek" && tampers[j].class != "foreign-kek" })
+	// ... and before them one plain damage of the file in place (cut in half), so that it is among the first reports
+	for i, t := range tampers {
+		if t.class == "truncate" && len(t.bytes) == len(s.orig)/2 {
+			tampers[0], tampers[i] = tampers[i], tampers[0]
+			break
+		}
+	}
 	for _, t := range tampers {
 		if only != nil && (only.Class != t.class || only.Detail != t.detail) {
 			continue
